@@ -579,7 +579,11 @@ func cmdCheck(args []string) {
 
 	// 4. violations
 	var replayPaths []string
-	os.MkdirAll(filepath.Join(verifDir, "replays"), 0o755)
+	replayDir := filepath.Join(verifDir, "replays")
+	if d := os.Getenv("VERIF_REPLAY_DIR"); d != "" {
+		replayDir = d
+	}
+	os.MkdirAll(replayDir, 0o755)
 	seenClass := map[string]int{}
 	for _, v := range a.viols {
 		var rf map[string]any
@@ -592,7 +596,7 @@ func cmdCheck(args []string) {
 			}
 		}
 		rf["tree_hash"] = treeHash
-		p := filepath.Join(verifDir, "replays", fmt.Sprintf("%s-%d-%v.json", prop, seed, rf["run"]))
+		p := filepath.Join(replayDir, fmt.Sprintf("%s-%d-%v.json", prop, seed, rf["run"]))
 		b, _ := json.MarshalIndent(rf, "", " ")
 		os.WriteFile(p, b, 0o644)
 		// confirm once more in a fresh process
@@ -667,9 +671,13 @@ func cmdCheck(args []string) {
 		"wall_s":      wall,
 		"violations":  len(replayPaths),
 	}
-	os.MkdirAll(filepath.Join(verifDir, "evidence"), 0o755)
+	evDir := filepath.Join(verifDir, "evidence")
+	if d := os.Getenv("VERIF_EVIDENCE_DIR"); d != "" {
+		evDir = d // mutant runs must not overwrite the evidence of the real tree
+	}
+	os.MkdirAll(evDir, 0o755)
 	b, _ := json.MarshalIndent(ev, "", " ")
-	if err := os.WriteFile(filepath.Join(verifDir, "evidence", prop+".json"), b, 0o644); err != nil {
+	if err := os.WriteFile(filepath.Join(evDir, prop+".json"), b, 0o644); err != nil {
 		fatal2("%v", err)
 	}
 	fmt.Printf("%s %s: %d simulated runs (%d distinct non-trivial), %d scheduler steps, %.0f s simulated, %.1f s wall; determinism sample %d runs x4 processes ok; other-property endings %v\n",
